@@ -38,7 +38,7 @@ def run(ctx):
         # spec self-test: each switch alone must break a property
         with open(vlib.VERIF + "/spec/trie/Proof_quick.cfg") as f:
             base = f.read()
-        for sw in ("EmptyTrieVerifies", "CheckValueDepth", "IgnoreCachedHash"):
+        for sw in ("EmptyTrieVerifies", "CheckValueDepth"):
             r = ctx.tlc_check("trie", "Proof.tla", "sw.cfg", files={"sw.cfg": base.replace(sw + " = TRUE", sw + " = FALSE")},
                               expect_violation=True, label="Proof.tla %s=FALSE" % sw, timeout=600)
             if r["violated"] is None:
@@ -75,13 +75,13 @@ def run(ctx):
         "hashes are injective terms in Proof.tla (unforgeable up to collisions); core/crypto is trusted",
         "range proofs are specified by their contract, not transcribed",
         "the RPC handlers are linked against FFI stubs (the VM is never called by starknet_getStorageProof)",
-        "in-place tampering (cached hash kept) and child retyping model an adversary who hands the verifier in-memory trienode objects; wire-level tampering rebuilds nodes from their content",
+        "every tampered node is rebuilt from its content (no cached nodeFlag.Hash), as a proof received from outside; child retyping models a deserialiser that lets the sender choose the child type",
     ]
     return ctx.finish(
         "model_checking",
         "exhaustive TLC over all key/value sets with <= 3 (thorough 4) keys at H=3 x all queried keys x both implementations x "
         "every single tampering (drop, child := junk / sibling, swap, edge path flip / shorten / lengthen, leaf replaced with "
-        "re-hashed path, other key, retype, stored under old key / new hash / in place); binding: TLC-simulated behaviours "
+        "re-hashed path, other key, retype; altered nodes rebuilt and stored under old key / new hash); binding: TLC-simulated behaviours "
         "(key/value sets over 16 model keys, ~35 membership queries and range claims each) replayed at height 251; "
         "non-trivial = every query runs the real Prove and VerifyProof / VerifyRangeProof on a trie with >= 1 binary node "
         "or the empty trie, absent keys at every divergence depth included; RPC: starknet_getStorageProof through the real "
